@@ -431,6 +431,7 @@ func (p *sparser) primary() SExpr {
 // ---------- contract files ----------
 
 type Clause struct {
+	Label   string
 	PkgPath string
 	Text string
 	Expr SExpr
@@ -445,11 +446,18 @@ type LoopSpec struct {
 	used       bool
 }
 
+type CallbackGhost struct {
+	Name string
+	Expr *Clause
+}
+
 type CallbackSpec struct {
-	Name     string
+	Name      string
 	Frameless bool
-	Requires []*Clause
-	Ensures  []*Clause
+	Ghosts    []CallbackGhost // ghost arguments: values of the caller's state exported to implementers
+	Requires  []*Clause       // internal obligations at the call site (may mention the caller's locals)
+	Provides  []*Clause       // obligations at the call site that implementers may rely on (over args, ghosts, cbinv)
+	Ensures   []*Clause       // what implementers must establish (assumed after the call)
 }
 
 type FuncContract struct {
@@ -463,11 +471,14 @@ type FuncContract struct {
 	Opaque     bool // do not verify the body (e.g. outside subset) but not a dependency: listed as trusted
 	Requires   []*Clause
 	Ensures    []*Clause
+	InternalEnsures []*Clause // proved for the function, not exported to callers (may mention its locals)
 	Modifies   []*Clause
 	Decreases  *Clause
 	Loops      map[int]*LoopSpec
 	Splits     []SplitSpec
 	Callbacks  []*CallbackSpec
+	CbInvParam string  // interpretation of the abstract callback invariant: cbinv <param> = <expr>
+	CbInvBody  *Clause
 	Captures   []*Clause // facts about captured variables of a closure unit (requires-like)
 	File       string
 	Line       int
@@ -510,7 +521,7 @@ type ContractFile struct {
 var clauseKeywords = map[string]bool{
 	"func": true, "pure": true, "assumed": true, "opaque": true, "requires": true, "ensures": true, "modifies": true,
 	"decreases": true, "loop": true, "split": true, "ghost": true, "spec": true, "def": true, "axiom": true, "extern": true,
-	"spec-import": true, "import": true, "package": true, "captures": true, "callback": true, "fresh-result": true,
+	"spec-import": true, "import": true, "package": true, "captures": true, "callback": true, "fresh-result": true, "cbinv": true, "internal": true,
 }
 
 // parseContractFile reads either a Go file with //@ lines or a raw .gvc file.
@@ -560,11 +571,19 @@ func parseContractFile(path string, pkgPath string) (*ContractFile, error) {
 	}
 	var cur *FuncContract
 	mk := func(text string, no int) (*Clause, error) {
+		label := ""
+		if strings.HasPrefix(text, "@") {
+			i := strings.IndexAny(text, " \t")
+			if i < 0 {
+				return nil, fmt.Errorf("%s:%d: label without clause", path, no)
+			}
+			label, text = text[1:i], strings.TrimSpace(text[i+1:])
+		}
 		e, err := parseSpecExpr(text)
 		if err != nil {
 			return nil, fmt.Errorf("%s:%d: %v", path, no, err)
 		}
-		return &Clause{Text: text, Expr: e, Line: no, File: path, PkgPath: cf.PkgPath}, nil
+		return &Clause{Label: label, Text: text, Expr: e, Line: no, File: path, PkgPath: cf.PkgPath}, nil
 	}
 	for _, l := range joined {
 		kw, rest := l.text, ""
@@ -684,7 +703,18 @@ func parseContractFile(path string, pkgPath string) (*ContractFile, error) {
 				switch f[1] {
 				case "frameless":
 					cb.Frameless = true
-				case "requires", "ensures":
+				case "ghost":
+					// callback X ghost d = expr
+					if len(f) < 3 || !strings.Contains(f[2], "=") {
+						return nil, fmt.Errorf("%s:%d: callback ghost needs name = expr", path, l.no)
+					}
+					k := strings.Index(f[2], "=")
+					c, err := mk(strings.TrimSpace(f[2][k+1:]), l.no)
+					if err != nil {
+						return nil, err
+					}
+					cb.Ghosts = append(cb.Ghosts, CallbackGhost{Name: strings.TrimSpace(f[2][:k]), Expr: c})
+				case "requires", "ensures", "provides":
 					if len(f) < 3 {
 						return nil, fmt.Errorf("%s:%d: callback clause needs an expression", path, l.no)
 					}
@@ -692,14 +722,37 @@ func parseContractFile(path string, pkgPath string) (*ContractFile, error) {
 					if err != nil {
 						return nil, err
 					}
-					if f[1] == "requires" {
+					switch f[1] {
+					case "requires":
 						cb.Requires = append(cb.Requires, c)
-					} else {
+					case "provides":
+						cb.Provides = append(cb.Provides, c)
+					default:
 						cb.Ensures = append(cb.Ensures, c)
 					}
 				default:
-					return nil, fmt.Errorf("%s:%d: callback clause must be requires/ensures/frameless", path, l.no)
+					return nil, fmt.Errorf("%s:%d: callback clause must be requires/provides/ensures/ghost/frameless", path, l.no)
 				}
+			case "internal":
+				if !strings.HasPrefix(rest, "ensures ") {
+					return nil, fmt.Errorf("%s:%d: internal ensures <expr>", path, l.no)
+				}
+				c, err := mk(strings.TrimSpace(rest[8:]), l.no)
+				if err != nil {
+					return nil, err
+				}
+				cur.InternalEnsures = append(cur.InternalEnsures, c)
+			case "cbinv":
+				k := strings.Index(rest, "=")
+				if k < 0 {
+					return nil, fmt.Errorf("%s:%d: cbinv <param> = <expr>", path, l.no)
+				}
+				c, err := mk(strings.TrimSpace(rest[k+1:]), l.no)
+				if err != nil {
+					return nil, err
+				}
+				cur.CbInvParam = strings.TrimSpace(rest[:k])
+				cur.CbInvBody = c
 			case "split":
 				f := strings.Fields(rest)
 				if len(f) != 3 {
